@@ -901,6 +901,7 @@ func runPipeline(c *simrun.Ctx) *simrun.Violation {
 	st.Add("simulations", 1)
 	st.Add("scheduler_steps", int64(sched.Steps))
 	st.Add("fault_context_switches", int64(sched.Switches))
+	st.Add("probe_task_blocked_in_a_real_lock_and_holder_released_it", int64(sched.Blocked))
 	st.Max("max_steps_in_a_run", int64(sched.Steps))
 	if sched.Switches >= 4 {
 		st.Add("runs_with_4plus_preemptions", 1)
